@@ -137,7 +137,9 @@ def late_meta_inputs(rng, n):
     for k in range(n):
         lines = rng.randint(300, 330) if k % 4 else rng.randint(30, 60)           # ~40 chars each: > 10240 or just > 1024
         pad = "\n".join("  licence text line %04d ................" % i for i in range(lines))
-        head = rng.choice(["<!DOCTYPE html>\n<html>\n<head>\n", "<!DOCTYPE html>", "", "<html><head>\n"])
+        # nothing before the declaration records an error: otherwise strict mode stops in the FIRST pass (tentative encoding),
+        # whose errors are not those of the pass that produces the result
+        head = rng.choice(["<!DOCTYPE html>\n<html>\n<head>\n", "<!DOCTYPE html>", "<!DOCTYPE html>\n", "<!DOCTYPE html><html><head>\n"])
         tail = rng.choice(tails) + (corpus.soup(rng) if rng.random() < 0.5 else "")
         doc = head + "<!--\n" + pad + "\n-->\n<meta charset=\"utf-8\">\n" + tail
         if len(doc) < 20000:
